@@ -24,6 +24,9 @@ pub enum FaultKind {
   SpuriousPoll,
   /// F8 slow party (listener / loader / factory / writer yielded)
   SlowParty,
+  /// F11 stalled party: the thread is descheduled right after an atomic write (a publish, an
+  /// unlock) for as long as the scheduler's policy allows (under PCT: until everybody else blocks)
+  StalledAfterWrite,
   /// F9 writer I/O error injected
   IoError,
   ShortWrite,
@@ -37,6 +40,7 @@ impl FaultKind {
   pub fn name(self) -> &'static str {
     match self {
       FaultKind::SpuriousUnpark => "F1_spurious_unpark",
+      FaultKind::StalledAfterWrite => "F11_stalled_after_atomic_write",
       FaultKind::CasWeakFail => "F2_cas_weak_spurious_failure",
       FaultKind::TimeoutFired => "F3_timeout_fired",
       FaultKind::ClockJump => "F3_clock_jump",
@@ -70,10 +74,15 @@ pub struct FaultRates {
   /// processor to somebody else: on real hardware a spin iteration gives no other thread a turn,
   /// so a window that a forced switch at every spin would always close stays open
   pub lazy_spin: bool,
+  /// probability that a thread is descheduled right after an atomic write with Release ordering
+  /// (store / swap / RMW / successful CAS: every unlock of the crate's own locks, publications): a yield, which under
+  /// the PCT scheduler sends the thread to the back of the line until everybody else blocks - the
+  /// "preempted between releasing the lock and the next statement" slow party
+  pub post_write_stall: u32,
 }
 
 thread_local! {
-  static RATES: Cell<FaultRates> = const { Cell::new(FaultRates { cas_weak: 0, spurious_park_return: 0, post_write_yield: false, lazy_spin: false }) };
+  static RATES: Cell<FaultRates> = const { Cell::new(FaultRates { cas_weak: 0, spurious_park_return: 0, post_write_yield: false, lazy_spin: false, post_write_stall: 0 }) };
   static FAULTS: RefCell<BTreeMap<&'static str, u64>> = const { RefCell::new(BTreeMap::new()) };
   static PROBES: RefCell<BTreeMap<&'static str, u64>> = const { RefCell::new(BTreeMap::new()) };
   static SEQ: Cell<u64> = const { Cell::new(0) };
@@ -110,8 +119,13 @@ thread_local! {
 
 /// A neutral scheduling point after an atomic write (see `FaultRates::post_write_yield`).
 #[inline]
-pub fn after_write() {
-  if RATES.with(|r| r.get()).post_write_yield {
+pub fn after_write(order: std::sync::atomic::Ordering) {
+  let r = RATES.with(|r| r.get());
+  // (only after Release writes: the release of one of the crate's own locks, a publication)
+  if r.post_write_stall != 0 && matches!(order, std::sync::atomic::Ordering::Release) && coin(r.post_write_stall) {
+    fault_fired(FaultKind::StalledAfterWrite);
+    shuttle::thread::yield_now();
+  } else if r.post_write_yield {
     SWITCH_POINT.with(|a| {
       let _ = a.load(std::sync::atomic::Ordering::SeqCst);
     });
